@@ -5,5 +5,5 @@ CONSTANTS
   Msgs = {"p"}
   MaxN = 2
   MaxW = 3
-  MaxX = 8
+  MaxX = 7
 INVARIANTS TypeOK RecvLeSent Conservation CompleteAtDone SequentialOwners OnlyActiveReceive UnknownStayInactive DoneExactly EndsWithDone
